@@ -2,6 +2,7 @@ package props
 
 import (
 	"fmt"
+	"google.golang.org/protobuf/proto"
 	"math/rand"
 
 	tpb "github.com/fullstorydev/grpchan/grpchantesting"
@@ -53,8 +54,24 @@ func checkC08(e *core.Env) {
 					sc.Handler = append(sc.Handler, Op{Op: "settrl", MD: genMD(rr, 2, true)})
 				}
 			}
-			if rr.Intn(3) == 0 {
+			switch rr.Intn(9) {
+			case 0, 1, 2:
 				sc.Ret = Ret{How: "status", Code: statusCodes[rr.Intn(16)], Msg: "final"}
+			case 3:
+				// errors that are not statuses, among them the one that ended the handler's own receive loop
+				sc.Ret = Ret{How: pick(rr, "plain", "eof", "ueof", "canceled", "deadline")}
+			}
+			if nresp >= 2 && rr.Intn(6) == 0 {
+				// a response the transport cannot encode (map key that is not valid UTF-8): whatever the
+				// transport makes of it, the call cannot end in success
+				for k := range sc.Handler {
+					if sc.Handler[k].Op == "send" && k > 1 {
+						m := proto.Clone(sc.Handler[k].Msg).(*tpb.Message)
+						m.Headers = map[string][]byte{"bad-key-\xff": []byte("v")}
+						sc.Handler[k].Msg, sc.Handler[k].MsgD = m, msgDesc(m)
+						break
+					}
+				}
 			}
 			sc.Receiver = []Op{{Op: "recv"}}
 			switch rr.Intn(4) {
@@ -168,6 +185,13 @@ func judgeCardinality(e *core.Env, c *Carrier, run *Run, nresp int) {
 	}
 	recvs := append(run.Rets("cr", "recv"), run.Rets("cs", "recv")...)
 	sig := fmt.Sprintf("%s/responses/n=%d", c.Name, min(nresp, 2))
+	// whatever the first receive said, a later receive never hands out another message
+	for k := 1; k < len(recvs); k++ {
+		if recvs[k].Pan == "" && (recvs[k].Err == nil || recvs[k].Msg != nil) {
+			e.Violate(sig+"/later-receive", fmt.Sprintf("receive #%d on a single-response call returned (%v, %v) after the first one had returned %v", k+1, recvs[k].Msg != nil, recvs[k].Err, recvs[0].Err), witness(run))
+			return
+		}
+	}
 	if out.OK {
 		if nresp != 1 || herr != nil {
 			e.Violate(sig+"/success", fmt.Sprintf("handler emitted %d responses and returned %v; client reported success", nresp, herr), witness(run))
